@@ -8,13 +8,13 @@ namespace GoaktVerif.C34
 open GoaktVerif.Model.C34 GoaktVerif.Spec.C34
 
 /-- The guard of the partial theorem, for the call `op` issued in state `s` after history `pre`:
-    * a left notification does not name the local node, and if it is newly tracked then the latest
-      node-left epoch (if any) covers the departure (this excludes a departure arriving while a
-      stale epoch is still the latest one — finding C34-F1);
+    * if a left notification is newly tracked then the latest node-left epoch (if any) covers the
+      departure (this excludes a departure arriving while a stale epoch is still the latest one —
+      finding C34-F1);
     * a node-left rebalance-start (not a duplicate) covers every pending departure (this excludes
       a start notification overtaken by the notification of a later departure — finding C34-F3). -/
 def guardStep (pre : List Op) (s : St) : Op → Bool
-  | .left n c => n != self && (!leftTracked (s.loc n) || s.g.leftLatest == 0 || decide (c ≤ s.g.leftLatest))
+  | .left n c => !leftTracked (s.loc n) || s.g.leftLatest == 0 || decide (c ≤ s.g.leftLatest)
   | .start .left _ e => s.g.startSeen e ||
       (pre.zipIdx.all fun p => match p.1 with
         | .left n c => (s.loc n).leftTs != some (p.2 + 1) || decide (c ≤ e)
@@ -102,9 +102,9 @@ theorem guard_start {pre : List Op} {s : St} {m : Node} {e : Epoch}
 theorem guard_left {pre : List Op} {s : St} {n : Node} {c : Epoch}
     (hg : guardStep pre s (.left n c) = true) (ht : leftTracked (s.loc n) = true)
     (h0 : s.g.leftLatest ≠ 0) : c ≤ s.g.leftLatest := by
-  simp only [guardStep, Bool.and_eq_true, Bool.or_eq_true, ht, Bool.not_true, Bool.false_eq_true,
+  simp only [guardStep, Bool.or_eq_true, ht, Bool.not_true, Bool.false_eq_true,
     false_or, beq_iff_eq, decide_eq_true_eq] at hg
-  rcases hg.2 with h | h
+  rcases hg with h | h
   · exact absurd h h0
   · exact h
 
@@ -200,16 +200,14 @@ theorem emitted_left_ts (pre : List Op) (op : Op) (n : Node) (t : Nat)
   · obtain ⟨c, rfl⟩ := (isLeftOf_iff _ _).mp hop
     exact ⟨by omega, by omega, c, by simp⟩
 
-/-- NodeLeft(self) needs a left notification naming the local node (which the code does not filter) -/
+/-- every NodeLeft needs a left notification naming that node (for the local node see `self_never_left`) -/
 theorem self_left_only_if_notified (pre : List Op) (op : Op) (t : Nat)
     (h : (evAt pre op self).left = some t) : ∃ c, Op.left self c ∈ pre ++ [op] := by
   obtain ⟨_, _, c, hc⟩ := emitted_left_ts pre op self t h
   exact ⟨c, List.mem_of_getElem? hc⟩
 
-theorem guard_no_self_left (h : List Op) (hg : guard h = true) (c : Epoch) : Op.left self c ∉ h := by
-  intro hm
-  obtain ⟨a, b, rfl⟩ := List.append_of_mem hm
-  have := guard_split a _ b hg
-  simp [guardStep] at this
+/-- the local node never reports its own departure (trackNodeLeftEvent ignores it) -/
+theorem self_never_left (pre : List Op) (op : Op) : (evAt pre op self).left = none :=
+  (stepL_self_left _ _ _ _ _ _ rfl (Inv_after pre).selfLeft).2
 
 end GoaktVerif.C34
